@@ -61,6 +61,10 @@ impl Ntv2Grid {
             if subgrids.insert(name.clone(), grid).is_some() {
                 return Err(Error::Invalid(format!("Duplicate sub grid name: {name}")));
             }
+            // ...and so would a sub grid going by the name reserved for "no parent"
+            if name == "NONE" {
+                return Err(Error::Invalid("Sub grid named NONE".to_string()));
+            }
             lookup_table
                 .entry(parent)
                 .or_insert_with(Vec::new)
